@@ -64,9 +64,10 @@ pub type SmallLazyContiguousCategoricalEntropyModel<F = f32, Pmf = Vec<F>> =
 /// `LazyContiguousCategoricalEntropyModel` has the following asymptotic costs:
 ///
 /// - creation:
-///   - runtime cost: `Θ(1)` if the normalization constant is known and provided, `O(N)`
-///     otherwise (but still faster by a constant factor than creating a
-///     [`ContiguousCategoricalEntropyModel`] from floating point probabilities);
+///   - runtime cost: `O(N)` (a single cheap pass that validates the probabilities and,
+///     unless provided, calculates the normalization constant; faster by a constant factor
+///     than creating a [`ContiguousCategoricalEntropyModel`] from floating point
+///     probabilities);
 ///   - memory footprint: `Θ(N)`;
 ///   - both are cheaper by a constant factor than for a
 ///     [`NonContiguousCategoricalEncoderModel`] or a
@@ -146,6 +147,12 @@ where
         let probs = probabilities.as_ref();
 
         if probs.len() < 2 || probs.len() >= wrapping_pow2::<usize>(PRECISION).wrapping_sub(1) {
+            return Err(());
+        }
+
+        // Negative entries (or NaN, which a provided `normalization` would not reveal) would
+        // lead to a non-monotonic CDF (same check as in `fast_quantized_cdf`).
+        if !probs.iter().all(|&probability| probability >= F::zero()) {
             return Err(());
         }
 
